@@ -136,6 +136,7 @@ Proof.
   destruct r as [x|o|[| |v]]; cbn [exit_ok] in *; try contradiction; try exact Hok.
   - destruct Hok as (E' & stL' & -> & Hr & Hk). exists E', stL'. split; [reflexivity | split; [exact Hr | eapply xkeep_widen; eassumption]].
   - destruct Hok as (E' & stL' & -> & Hr & Hk). exists E', stL'. split; [reflexivity | split; [exact Hr | eapply xkeep_widen; eassumption]].
+  - destruct Hok as (E' & stL' & lv & -> & Hv & Hr & Hk). exists E', stL', lv. split; [reflexivity | split; [exact Hv | split; [exact Hr | eapply xkeep_widen; eassumption]]].
 Qed.
 
 (* two sub-expressions evaluated one after the other (binary operators, <=>) *)
